@@ -1032,8 +1032,10 @@ brk("B47c", "is_date: bare fromisoformat (pre-fix shape)",
         return False
     return _is_date(instance)''', '''    return _is_date(instance)''')], {"C13": "R13.3|"})
 
-brk("B47d", "is_date: shape checked with match (prefix) instead of fullmatch",
-    [(F, "    if not _RFC3339_FULL_DATE.fullmatch(instance):", "    if not _RFC3339_FULL_DATE.match(instance):")], {"C13": "R13.3|"})
+# (was breaking variant B47d until the date table decided it: a prefix match lets "2020-01-01x" through to the parser, and the parser
+# -- fromisoformat, or strptime with %Y-%m-%d -- refuses every such string: the verdicts are the same.  Kept as a preserving variant.)
+keep("P61", "is_date: shape checked with match (prefix) instead of fullmatch -- the parser refuses whatever the prefix lets through",
+     [(F, "    if not _RFC3339_FULL_DATE.fullmatch(instance):", "    if not _RFC3339_FULL_DATE.match(instance):")])
 
 brk("B47e", "is_date: shape regex uses \\d without ASCII (non-ASCII digits reach fromisoformat)",
     [(F, '''_RFC3339_FULL_DATE = re.compile(r"[0-9]{4}-[0-9]{2}-[0-9]{2}")''', '''_RFC3339_FULL_DATE = re.compile(r"\\d{4}-\\d{2}-\\d{2}")''')], {"C13": "R13.3|"})
